@@ -452,6 +452,17 @@ def max_matching_kuhn(nu, nv, edges):
     return sum(1 for u in range(nu) if augment(u, set()))
 
 
+def max_matching_iterative(nu, nv, edges):
+    """Maximum matching size by scipy's (compiled, non-recursive) bipartite matching: reference for graphs too deep for a recursive search."""
+    from scipy.sparse import csr_array
+    from scipy.sparse.csgraph import maximum_bipartite_matching
+    es = sorted(set((int(u), int(v)) for u, v in edges))
+    if not es or nu == 0 or nv == 0:
+        return 0
+    a = csr_array((np.ones(len(es), dtype=np.int8), ([e[0] for e in es], [e[1] for e in es])), shape=(nu, nv))
+    return int(np.sum(maximum_bipartite_matching(a.tocsr(), perm_type='column') >= 0))
+
+
 # ---------------------------------------------------------------------------------------------------
 # operator Schmidt rank, sector tools
 # ---------------------------------------------------------------------------------------------------
